@@ -16,6 +16,7 @@
 (* A palette is a sequence of <<r, g, b>>; index i is pal[i + 1].          *)
 (***************************************************************************)
 EXTENDS Naturals, Sequences, FiniteSets
+LOCAL INSTANCE SequencesExt          \* FoldLeft (linear; deep RECURSIVE operators are quadratic in TLC)
 
 DefaultCell == <<32, 7, 0, 0>>
 Bold(c) == c[4] % 2
@@ -219,9 +220,8 @@ Token(r, w, t) ==
     ELSE [r EXCEPT !.bad = 1]
   ELSE [r EXCEPT !.bad = 1]
 
-RECURSIVE Read(_, _, _, _)
-Read(r, w, toks, i) == IF i > Len(toks) THEN r ELSE Read(Token(r, w, toks[i]), w, toks, i + 1)
-ReadAll(w, toks) == Read(R0, w, toks, 1)
+ReadFrom(r, w, toks) == FoldLeft(LAMBDA acc, t : Token(acc, w, t), r, toks)
+ReadAll(w, toks) == ReadFrom(R0, w, toks)
 
 \* model screen (shown cells) against reloaded cells
 ShownAt(rows, x, y) == IF y <= Len(rows) /\ x <= Len(rows[y]) THEN rows[y][x] ELSE DefaultShown
